@@ -8,7 +8,7 @@
 //   run  <kind mep|ga|de> <strat std|alps|de|dealps> <mode step|whole|search> <seed>
 //        <individuals> <min_individuals> <layers> <tournament> <mate_zone> <elitism 0|1>
 //        <age_gap> <p_same> <p_cross> <p_mutation> <brood> <generations> <cache 0|1>
-//        <eval h|v|r> <evalmod> <shake_every>
+//        <eval h|v|r> <evalmod> <shake_every> [<max_stuck_time>]
 //   tune <class search|ga|de|src> <strat std|alps|de> <validator asis|holdout|dss> <rows>
 //        code_length patch_length elitism(-1|0|1) p_mutation p_cross brood layers individuals
 //        min_individuals tournament mate_zone generations max_stuck_time(-1=unset) dss(-1) validation(-1)
@@ -176,6 +176,23 @@ template<class T> std::string show_sum(const summary<T> &sm, evaluator<T> &eva, 
          + std::to_string(sm.last_imp) + " " + std::to_string(gen);
 }
 
+std::string show_double(double d) { return hex64(bits_of(d)); }
+
+// the analyzer fields read by basic_alps_es::after_generation and
+// std_es::stop_condition:  AZ <groups> {fit mean, fit sd, age mean}*groups <fit variance>
+template<class T> std::string show_az(const analyzer<T> &az, unsigned groups)
+{
+  std::string s("AZ ");
+  unsigned present(0);
+  while (present < groups && az.group_stat_.find(present) != az.group_stat_.end()) ++present;
+  s += std::to_string(present);
+  for (unsigned l(0); l < present; ++l)
+    s += " " + show_fit(az.fit_dist(l).mean()) + " " + show_fit(az.fit_dist(l).standard_deviation())
+         + " " + show_double(az.age_dist(l).mean());
+  s += " " + (az.fit_dist().count() ? show_fit(az.fit_dist().variance()) : std::string("-"));
+  return s;
+}
+
 template<class T> std::string show_coords(const std::vector<typename population<T>::coord> &cs)
 {
   std::string s(std::to_string(cs.size()));
@@ -197,7 +214,7 @@ struct config
   unsigned brood, generations;
   int cache;
   char eval;
-  unsigned evalmod, shake_every;
+  unsigned evalmod, shake_every, max_stuck;
 };
 
 void apply(const config &c, environment &env)
@@ -218,6 +235,7 @@ void apply(const config &c, environment &env)
   env.mep.code_length = 12;
   env.mep.patch_length = 1;
   env.cache_size = 7;
+  env.max_stuck_time = c.max_stuck;
 }
 
 template<class T> struct problem_of;
@@ -349,6 +367,15 @@ void run_step(const config &c)
 
   for (sum.gen = 0; sum.gen <= c.generations; ++sum.gen)
   {
+    {
+      // strategy specific stop condition (evolution::stop_condition), evaluated
+      // on the analyzer of the previous generation
+      const bool stop(es.stop_condition());
+      g_out << " STOP " << show_az(sum.az, 0) << " " << sum.gen << " " << sum.last_imp << " "
+            << c.max_stuck << " " << (stop ? 1 : 0);
+      if (stop) break;
+    }
+
     if (c.shake_every && sum.gen && sum.gen % c.shake_every == 0)
     {
       ++g_salt;
@@ -380,8 +407,9 @@ void run_step(const config &c)
     }
 
     g_draws.clear();
+    const std::string s_az(show_az(sum.az, pop.layers()));
     es.after_generation();
-    g_out << " GEN " << describe_int_draws(4096) << " " << show_pop(pop, eva) << " "
+    g_out << " GEN " << s_az << " " << describe_int_draws(4096) << " " << show_pop(pop, eva) << " "
         << show_sum(sum, eva, sum.gen + 1);
   }
   g_out << " END";
@@ -509,7 +537,8 @@ void run_whole(const config &c, bool traced)
     [&](const population<T> &pop, const summary<T> &sum)
     {
       if (traced)
-        g_out << " GEN D 0 " << show_pop(pop, eva) << " " << show_sum(sum, eva, sum.gen + 1);
+        g_out << " GEN " << show_az(sum.az, pop.layers()) << " D 0 " << show_pop(pop, eva) << " "
+              << show_sum(sum, eva, sum.gen + 1);
       else
         g_out << " CB " << show_pop(pop, eva) << " " << show_sum(sum, eva, sum.gen);
     });
@@ -682,6 +711,8 @@ config parse_run(const std::vector<std::string> &w)
   c.eval = w.at(i++)[0];
   c.evalmod = std::stoul(w.at(i++));
   c.shake_every = std::stoul(w.at(i++));
+  c.max_stuck = i < w.size() ? static_cast<unsigned>(std::stoul(w.at(i++)))
+                             : std::numeric_limits<unsigned>::max();
   return c;
 }
 
